@@ -193,10 +193,19 @@ def _run_one(version, scn):
             else:
                 raise ValueError(op)
             out.append({"kind": o.kind, "cls": o.cls, "attrs": dict(o.attrs), "fields": o.fields,
-                        "writes": list(o.writes), "nodes": o.nodes})
+                        "writes": [(_no_clock(ln), ok) for ln, ok in o.writes], "nodes": o.nodes})
         return out, w.elog.digest(), w.loop.time(), w.loop.steps, dict(w.faults)
     finally:
         w.close()
+
+
+def _no_clock(line: str) -> str:
+    """The payload of a time reply is the controller's clock (C06's business); the two runs of a pair may have spent
+    different amounts of virtual time in write latencies once they differ anywhere else."""
+    f = line.rstrip("\n").split(";")
+    if len(f) == 6 and f[2] == "3" and f[4] == "1" and f[5].lstrip("-").isdigit():
+        return ";".join(f[:5]) + ";<time>\n"
+    return line
 
 
 def _heartbeat(text: str) -> bool:
